@@ -458,8 +458,14 @@ where
         // the case where the search direction is exactly on the
         // cone boundary.   The root should be -c/b, but b can't
         // be negative since both (x,y) are in the cone and it is
-        // self dual, so <x,y> \ge 0 necessarily.
-        return αmax;
+        // self dual, so <x,y> \ge 0 necessarily.   If instead the
+        // direction is on the boundary of the *negative* cone, then
+        // b < 0 and the root -c/b is positive and limits the step.
+        return if b < T::zero() {
+            T::min(αmax, -c / b)
+        } else {
+            αmax
+        };
     } else if c == T::zero() {
         // Edge case with one of the roots at 0.   This corresponds
         // to the case where the initial point is exactly on the
